@@ -550,6 +550,8 @@ def rules(ctx):
     formulas.network_formulas(ctx, "R6")
     formulas.network_predicates(ctx, "R6")
     formulas.completeness_loops(ctx, "R1")
+    from .C02 import capacity_capped_by_total
+    capacity_capped_by_total(ctx)
     loader(ctx)
     getters(ctx)
     sorted_maps(ctx)
